@@ -111,6 +111,20 @@ pub fn worker(ctx: &Ctx, res: &mut ShardResult) {
             if ctx.out_of_time() || res.too_many() { return; }
         }
     }
+    // the same box (without edits) for `seam`, whose scanner asks whether it stands at the first byte of an included range
+    if ctx.id != "C02" {
+        let z = crate::zoo::seam();
+        let info = build_info(&z);
+        let rp: Vec<(usize, usize, usize, bool)> = range_passes(&ctx.tier).into_iter().filter(|p| !p.3).collect();
+        let maxlen = rp.iter().map(|p| p.0).max().unwrap_or(0);
+        for d in crate::docs::docs(&z, 2).iter().filter(|d| !d.is_empty() && d.len() <= maxlen) {
+            idx += 1;
+            if !ctx.mine(idx) { continue; }
+            hist::explore_ranges(ctx, &info, d, &rp, &[], oracle_of(&ctx.id), res);
+            res.count("range_docs_seam", 1);
+            if ctx.out_of_time() || res.too_many() { return; }
+        }
+    }
 }
 
 /// passes of the included-range box: (max document bytes, max ranges in R1, max ranges in R2, crossed with every edit)
